@@ -2,7 +2,7 @@
 # run_all_seeds.sh — apply every seeded change (seeded/C*/patch.diff) to /repo in turn, run the quick
 # check of its property, revert; prints CAUGHT/MISSED per seed and a summary. Expected MISSED:
 # C01-a, C16-r2, C04-r7a, C08-r4b, C06-r6b, C15-r6b, C17-r6a (see their meta.json: deliberately not counted as violations),
-# C03-r2 (unreachable since fix b00d97b), and C06-r3 / C15-r3 (patches no longer apply since the F13 repair: to be re-based).
+# and C03-r2 (unreachable since fix b00d97b).
 cd /verif || exit 3
 caught=0; missed=""
 for d in seeded/C*/; do
